@@ -140,7 +140,7 @@ def run(tier):
                 else:
                     detail = m['detail']
                     cls = opn
-                    if opn in ('bad-charref', 'bad-charref-in-attr', 'dtd-garbage-decl', 'xmldecl-bad-version', 'illegal-char', 'illegal-char-in-attr', 'entity-partial-markup', 'utf8-illegal-sequence'):
+                    if opn in ('bad-charref', 'bad-charref-in-attr', 'dtd-garbage-decl', 'xmldecl-bad-version', 'illegal-char', 'illegal-char-in-attr', 'entity-partial-markup', 'utf8-illegal-sequence', 'element-split-across-entities'):
                         cls = opn + ':' + str(detail)
                     ck.violation('C02:accepted:%s' % cls, 'document violating a well-formedness constraint (%s %s) was accepted without fatal error (config %s, verdict %s)' % (opn, detail, name, v),
                                  {'case': c.to_json(), 'text': m['text'] if m['text'] is not None else None, 'op': opn, 'detail': detail, 'expat_rejects': m.get('expat') is False,
